@@ -23,6 +23,7 @@ type rtStore struct {
 	kvs.Storage
 	casCalls  int32
 	casOK     int32
+	waits     int32 // WaitForVersionChange calls entered
 	failAt    int32 // fail the k-th CAS (1-based), 0 = none
 	failAfter int32 // "holder death": every CAS from this call number on fails
 	lastCas   atomic.Value
@@ -52,6 +53,11 @@ func renewalOwner() string {
 		return ""
 	}
 	return strings.TrimSpace(rest[:j])
+}
+
+func (s *rtStore) WaitForVersionChange(ctx context.Context, key, ver string) error {
+	atomic.AddInt32(&s.waits, 1)
+	return s.Storage.WaitForVersionChange(ctx, key, ver)
 }
 
 func (s *rtStore) CasByVersion(ctx context.Context, r kvs.Record) (kvs.Record, error) {
@@ -308,6 +314,122 @@ func rtShutdownHeldScenario(lease time.Duration) rtResult {
 	return res
 }
 
+// rtCrossScenario: two Lockers with DIFFERENT names in one process.  A's renewal is in flight when B acquires its
+// own lock and A then unlocks: nothing A does with its timers may touch B's lease — B holds for three lease
+// periods, its record stays and a Locker of another provider cannot take B's lock.
+func rtCrossScenario(lease time.Duration) rtResult {
+	res := rtResult{name: fmt.Sprintf("cross lease=%v", lease)}
+	st := &rtStore{Storage: inmem.New(), holdAt: 1, holdApplied: true, reached: make(chan struct{}), resume: make(chan struct{})}
+	pa := dist.NewKvsLockProvider(st, "/rt/")
+	pt := dist.NewKvsLockProvider(st, "/rt/")
+	dist.VerifSetLease(pa, lease)
+	dist.VerifSetLease(pt, lease)
+	defer pa.Shutdown()
+	defer pt.Shutdown()
+	a := pa.NewLocker("a")
+	b := pa.NewLocker("b")
+	third := pt.NewLocker("b").(tryLocker)
+	a.Lock()
+	select {
+	case <-st.reached: // A's first renewal is applied, its answer on the way
+	case <-time.After(3 * lease):
+		res.bad = "no renewal was issued within 3 lease periods"
+		close(st.resume)
+		a.Unlock()
+		return res
+	}
+	b.Lock()
+	t0 := time.Now()
+	a.Unlock()
+	close(st.resume)
+	bg := context.Background()
+	end := t0.Add(3 * lease)
+	for time.Now().Before(end) {
+		if third.TryLock(bg) {
+			res.bad = fmt.Sprintf("another provider's Locker acquired lock b %v after B did, while B (alive, storage answering) still held it — an Unlock of the unrelated lock a overlapped one of a's renewals", time.Since(t0).Round(time.Millisecond))
+			third.Unlock()
+			break
+		}
+		if r, err := st.Get(bg, "/rt/b"); err != nil || r.Key == "" {
+			res.bad = fmt.Sprintf("the record of the held lock b is gone %v after it was acquired (lease %v): its renewal was disturbed by the Unlock of the unrelated lock a", time.Since(t0).Round(time.Millisecond), lease)
+			break
+		}
+		time.Sleep(lease / 40)
+	}
+	res.info = fmt.Sprintf("renewals=%d ok=%d", atomic.LoadInt32(&st.casCalls), atomic.LoadInt32(&st.casOK))
+	b.Unlock()
+	return res
+}
+
+// rtCancelHandoffScenario (real in-memory storage): a caller waits in the storage wait behind a holder of another
+// Locker; the holder unlocks and the waiter's context is cancelled at the same moment, many times over.
+// Whatever the waiter got, afterwards nobody holds: the lock must be acquirable at once and the storage must
+// still answer (no call may hang).
+func rtCancelHandoffScenario(rounds int) rtResult {
+	res := rtResult{name: fmt.Sprintf("cancel-at-handoff rounds=%d", rounds)}
+	st := &rtStore{Storage: inmem.New()}
+	pa := dist.NewKvsLockProvider(st, "/rt/")
+	pb := dist.NewKvsLockProvider(st, "/rt/")
+	pt := dist.NewKvsLockProvider(st, "/rt/")
+	defer pa.Shutdown()
+	defer pb.Shutdown()
+	defer pt.Shutdown()
+	a := pa.NewLocker("l")
+	b := pb.NewLocker("l")
+	third := pt.NewLocker("l").(tryLocker)
+	within := func(d time.Duration, f func()) bool {
+		done := make(chan struct{})
+		go func() { f(); close(done) }()
+		select {
+		case <-done:
+			return true
+		case <-time.After(d):
+			return false
+		}
+	}
+	for i := 0; i < rounds && res.bad == ""; i++ {
+		a.Lock()
+		ctx, cancel := context.WithCancel(context.Background())
+		got := make(chan error, 1)
+		go func() { got <- b.LockWithCtx(ctx) }()
+		// let B reach the storage wait (its Create has lost against A's record)
+		for j := 0; j < 2000 && atomic.LoadInt32(&st.waits) == int32(i) && len(got) == 0; j++ {
+			time.Sleep(50 * time.Microsecond)
+		}
+		var wg sync.WaitGroup
+		wg.Add(2)
+		go func() { defer wg.Done(); a.Unlock() }()
+		go func() { defer wg.Done(); cancel() }()
+		if !within(3*time.Second, wg.Wait) {
+			res.bad = fmt.Sprintf("round %d: Unlock of the holder did not return within 3 s while the waiter's context was cancelled at the hand-off", i)
+			break
+		}
+		var err error
+		select {
+		case err = <-got:
+		case <-time.After(3 * time.Second):
+			res.bad = fmt.Sprintf("round %d: the waiting LockWithCtx neither acquired nor returned its context's error within 3 s", i)
+		}
+		if res.bad != "" {
+			break
+		}
+		if err == nil {
+			b.Unlock()
+		}
+		ok := false
+		if !within(3*time.Second, func() { ok = third.TryLock(context.Background()) }) {
+			res.bad = fmt.Sprintf("round %d: nobody holds the lock, but a TryLock of another Locker did not even return within 3 s (a storage call hangs)", i)
+		} else if !ok {
+			res.bad = fmt.Sprintf("round %d: every holder has unlocked and the waiter returned (%v), but another Locker cannot acquire", i, err)
+		} else {
+			third.Unlock()
+		}
+		cancel()
+	}
+	res.info = fmt.Sprintf("rounds=%d", rounds)
+	return res
+}
+
 // rtHandoverScenario: the contender waits behind the holder for `waitLeases` lease periods (the holder is
 // alive and renewing, or dead from the start), acquires, and then HOLDS for two lease periods: its record must
 // be there all the time and nobody else may get the lock — the lease of a lock obtained after a long wait is as
@@ -444,6 +566,35 @@ func runLockRT(ctx *Ctx) {
 			ctx.R.Stats.Notes = append(ctx.R.Stats.Notes, "timing flake discarded: "+ra.name+": "+ra.bad)
 			ra.bad = ""
 		}
+	}
+	// two unrelated locks in one process: an Unlock overlapping a renewal in flight must not touch the other lock's lease
+	rx := rtCrossScenario(lease)
+	if rx.bad != "" {
+		if r2 := rtCrossScenario(2 * lease); r2.bad == "" {
+			ctx.R.Stats.Notes = append(ctx.R.Stats.Notes, "timing flake discarded: "+rx.name+": "+rx.bad)
+			rx.bad = ""
+		} else {
+			rx.bad = r2.bad
+		}
+	}
+	ctx.R.Case("realtime")
+	ctx.R.Nontrivial("cross")
+	ctx.R.Op("scenario cross-1", "ok")
+	ctx.R.Comment(rx.name + ": " + rx.info)
+	if rx.bad != "" {
+		ctx.R.Quiet("mon C05-lease-kept-while-held", rx.name+": "+rx.bad)
+		if strings.Contains(rx.bad, "acquired lock") {
+			ctx.R.Quiet("mon C01-at-most-one-holder", rx.name+": "+rx.bad)
+		}
+	}
+	// cancellation exactly at the hand-off, on the real in-memory storage
+	rc := rtCancelHandoffScenario(40)
+	ctx.R.Case("realtime")
+	ctx.R.Nontrivial("cancel-at-handoff")
+	ctx.R.Op("scenario cancel-at-handoff-1", "ok")
+	ctx.R.Comment(rc.name + ": " + rc.info)
+	if rc.bad != "" {
+		ctx.R.Quiet("mon C04-no-stuck-goroutine", rc.name+": "+rc.bad)
 	}
 	// Shutdown of the holder's provider while the lock is held
 	rs := rtShutdownHeldScenario(lease)
